@@ -443,6 +443,13 @@ class _FakeSystemRandom:
             a, b = 0, a
         if b <= a:
             raise ValueError('empty range for randrange() (%d, %d, %d)' % (a, b, b - a))
+        # the exponent is pinned to the low end, so the virtual run is cheap; remember how large a secret the tool asked for, since that
+        # (times the square of the modulus size) is the work a real run would do
+        try:
+            w = current()
+            w.max_random_range_bits = max(getattr(w, 'max_random_range_bits', 0), (b - a).bit_length())
+        except Exception:
+            pass
         return a
 
     def randint(self, a, b):
